@@ -47,7 +47,31 @@ def plan(tier: str, seed: int):
     return [(name, part) for name in NAMES for part in ("dyadic", "other")]
 
 
+POLLUTED = []
+
+
+def pollute_other_registries() -> None:
+    """Other HedgeFactory / FactoryManager instances are given foreign hedges under the registered names: the library's
+    own registry (settings.factory_manager.hedge) and freshly built factories must not notice."""
+    if POLLUTED:
+        return
+
+    class Cubic(fl.Hedge):
+        def hedge(self, x):
+            return fl.scalar(x) ** 3
+
+    other = fl.HedgeFactory()
+    tmp = fl.FactoryManager()
+    for name in NAMES:
+        other[name] = Cubic
+        tmp.hedge[name] = Cubic
+    with fl.settings.context(factory_manager=tmp):
+        fl.Rule.create("if a is very b then c is d")
+    POLLUTED.append((other, tmp))
+
+
 def impl_of(name: str):
+    pollute_other_registries()
     return fl.settings.factory_manager.hedge.construct(name)
 
 
